@@ -1,3 +1,182 @@
-import CLModel.Model.Registry
+import CLModel.Proofs.Merge
+import CLModel.Props.C09
+/-!
+# C13 — Merged registry deltas equal sequential application
+
+Model: `Reg.merge`, whose body is *interpreted from the statement list regenerated from
+`RevocationRegistryDelta::merge`* (`Gen.mergeBody`). Index sets are lists read as sets
+(`HashSet<u32>`); all statements are about membership, so they hold for sets of any size.
+-/
 namespace CL.C13
+open CL CL.Reg
+
+/-- the translator recognised the head of `merge` (consecutive check + `accum` assignment) -/
+theorem merge_head_recognised : Gen.mergeHeadRecognised = true := rfl
+
+/-- the merged `(issued, revoked)` computed by the regenerated body -/
+def mergedSets (I₁ R₁ I₂ R₂ : List ℕ) : List ℕ × List ℕ :=
+  runMerge I₂ R₂ Gen.mergeBody (I₁, R₁)
+
+/-- **per-index truth table** of the regenerated body: membership of `x` in the merged
+`issued` / `revoked` as a Boolean function of its four memberships — for all sets. -/
+theorem merge_pointwise (I₁ R₁ I₂ R₂ : List ℕ) (x : ℕ) :
+    (x ∈ (mergedSets I₁ R₁ I₂ R₂).1 ↔ (x ∈ I₁ ∨ (x ∈ I₂ ∧ x ∉ R₁)) ∧ x ∉ R₂) ∧
+    (x ∈ (mergedSets I₁ R₁ I₂ R₂).2 ↔
+      (x ∈ R₁ ∨ (x ∈ R₂ ∧ ¬ (x ∈ I₁ ∨ (x ∈ I₂ ∧ x ∉ R₁)))) ∧ x ∉ I₂) := by
+  simp only [mergedSets, Gen.mergeBody, runMerge, mem_setRemoveAll, mem_setUnionDiff]
+  tauto
+
+/-- deltas of two consecutive operations of a protocol-respecting history: each delta's sets
+are disjoint, nothing is issued twice or revoked twice in a row -/
+structure Consecutive (I₁ R₁ I₂ R₂ : List ℕ) : Prop where
+  d₁ : ∀ x, x ∈ I₁ → x ∉ R₁
+  d₂ : ∀ x, x ∈ I₂ → x ∉ R₂
+  ii : ∀ x, x ∈ I₁ → x ∉ I₂
+  rr : ∀ x, x ∈ R₁ → x ∉ R₂
+
+/-- **merged sets** for consecutive deltas: `issued = (I₁ \ R₂) ∪ (I₂ \ R₁)`,
+`revoked = (R₁ \ I₂) ∪ (R₂ \ I₁)` — an index issued then revoked, or revoked then re-issued,
+cancels out. -/
+theorem merge_consecutive_sets (I₁ R₁ I₂ R₂ : List ℕ) (h : Consecutive I₁ R₁ I₂ R₂) (x : ℕ) :
+    (x ∈ (mergedSets I₁ R₁ I₂ R₂).1 ↔ (x ∈ I₁ ∧ x ∉ R₂) ∨ (x ∈ I₂ ∧ x ∉ R₁)) ∧
+    (x ∈ (mergedSets I₁ R₁ I₂ R₂).2 ↔ (x ∈ R₁ ∧ x ∉ I₂) ∨ (x ∈ R₂ ∧ x ∉ I₁)) := by
+  obtain ⟨hp1, hp2⟩ := merge_pointwise I₁ R₁ I₂ R₂ x
+  have h1 := h.d₁ x; have h2 := h.d₂ x; have h3 := h.ii x; have h4 := h.rr x
+  generalize mergedSets I₁ R₁ I₂ R₂ = r at hp1 hp2 ⊢
+  rw [hp1, hp2]
+  by_cases a : x ∈ I₁ <;> by_cases b : x ∈ R₁ <;> by_cases c : x ∈ I₂ <;> by_cases d : x ∈ R₂ <;>
+    simp_all
+
+/-- issued-then-revoked and revoked-then-reissued cancel (corollaries) -/
+theorem merge_cancels (I₁ R₁ I₂ R₂ : List ℕ) (h : Consecutive I₁ R₁ I₂ R₂) (x : ℕ) :
+    (x ∈ I₁ → x ∈ R₂ → x ∉ (mergedSets I₁ R₁ I₂ R₂).1 ∧ x ∉ (mergedSets I₁ R₁ I₂ R₂).2) ∧
+    (x ∈ R₁ → x ∈ I₂ → x ∉ (mergedSets I₁ R₁ I₂ R₂).1 ∧ x ∉ (mergedSets I₁ R₁ I₂ R₂).2) := by
+  obtain ⟨hc1, hc2⟩ := merge_consecutive_sets I₁ R₁ I₂ R₂ h x
+  have h1 := h.d₁ x; have h2 := h.d₂ x; have h3 := h.ii x; have h4 := h.rr x
+  generalize mergedSets I₁ R₁ I₂ R₂ = r at hc1 hc2 ⊢
+  rw [hc1, hc2]
+  by_cases a : x ∈ I₁ <;> by_cases b : x ∈ R₁ <;> by_cases c : x ∈ I₂ <;> by_cases d : x ∈ R₂ <;>
+    simp_all
+
+/-- the merged sets stay disjoint -/
+theorem merge_disjoint (I₁ R₁ I₂ R₂ : List ℕ) (h : Consecutive I₁ R₁ I₂ R₂) (x : ℕ) :
+    x ∈ (mergedSets I₁ R₁ I₂ R₂).1 → x ∉ (mergedSets I₁ R₁ I₂ R₂).2 := by
+  obtain ⟨hc1, hc2⟩ := merge_consecutive_sets I₁ R₁ I₂ R₂ h x
+  have h1 := h.d₁ x; have h2 := h.d₂ x; have h3 := h.ii x; have h4 := h.rr x
+  generalize mergedSets I₁ R₁ I₂ R₂ = r at hc1 hc2 ⊢
+  rw [hc1, hc2]
+  by_cases a : x ∈ I₁ <;> by_cases b : x ∈ R₁ <;> by_cases c : x ∈ I₂ <;> by_cases d : x ∈ R₂ <;>
+    simp_all
+
+variable {F : Type}
+
+/-- **endpoints**: an accepted merge starts at the first delta's previous accumulator and
+ends at the second one's accumulator. -/
+theorem merge_endpoints (eqF : F → F → Bool) (d₁ d₂ d : Delta F)
+    (h : merge eqF d₁ d₂ = .ok d) : d.prev = d₁.prev ∧ d.acc = d₂.acc := by
+  unfold merge at h
+  cases hp : d₂.prev with
+  | none => simp [hp] at h
+  | some p =>
+    simp only [hp] at h
+    by_cases he : eqF d₁.acc p
+    · simp only [he, Bool.not_true, Bool.false_eq_true, if_false, Outcome.ok.injEq] at h
+      subst h; exact ⟨rfl, rfl⟩
+    · simp [he] at h
+
+/-- **non-consecutive deltas are refused** (and `merge` being a function of its arguments,
+the target is left as it was). -/
+theorem merge_refuses_nonconsecutive (eqF : F → F → Bool) (d₁ d₂ : Delta F)
+    (h : d₂.prev = none ∨ ∃ p, d₂.prev = some p ∧ eqF d₁.acc p = false) :
+    merge eqF d₁ d₂ = .err := by
+  unfold merge
+  rcases h with h | ⟨p, hp, he⟩
+  · simp [h]
+  · simp [hp, he]
+
+/-- **consecutive deltas are accepted** with the sets of `merge_consecutive_sets` -/
+theorem merge_accepts_consecutive (eqF : F → F → Bool) (d₁ d₂ : Delta F) (p : F)
+    (hp : d₂.prev = some p) (he : eqF d₁.acc p = true) :
+    merge eqF d₁ d₂ = .ok ⟨d₁.prev, d₂.acc,
+      (mergedSets d₁.issued d₁.revoked d₂.issued d₂.revoked).1,
+      (mergedSets d₁.issued d₁.revoked d₂.issued d₂.revoked).2⟩ := by
+  unfold merge mergedSets
+  simp [hp, he]
+
+/-! ### effect on witnesses -/
+
+section witness
+open Finset
+variable {K : Type} [CommRing K]
+
+/-- two deltas that follow each other from a state with valid set `V` are `Consecutive` -/
+theorem consecutive_of_applicable (L : ℕ) (V : Finset ℕ) (I₁ R₁ I₂ R₂ : List ℕ)
+    (h₁ : C09.Applicable L V I₁ R₁)
+    (h₂ : C09.Applicable L ((V ∪ I₁.toFinset) \ R₁.toFinset) I₂ R₂) : Consecutive I₁ R₁ I₂ R₂ := by
+  refine ⟨h₁.disj, h₂.disj, ?_, ?_⟩
+  · intro x hx hx2
+    exact h₂.fresh x hx2 (by simp [hx, h₁.disj x hx])
+  · intro x hx hx2
+    have := h₂.valid x hx2
+    simp [hx] at this
+
+/-- **merged delta ≡ sequential application on every witness**: for every holder index `i`,
+updating `witOf V` with `merge d₁ d₂` gives the same witness as updating with `d₁` and then
+with `d₂` (both are `witOf` of the final valid set). -/
+theorem merge_update_equiv (γ : K) (m : OvfMode) (L i : ℕ) (hL : TailsOk L) (hi : InRange L i)
+    (V : Finset ℕ) (d₁ d₂ : Delta K)
+    (h₁ : C09.Applicable L V d₁.issued d₁.revoked)
+    (h₂ : C09.Applicable L ((V ∪ d₁.issued.toFinset) \ d₁.revoked.toFinset) d₂.issued d₂.revoked)
+    (dm : Delta K)
+    (hdm : dm.issued = (mergedSets d₁.issued d₁.revoked d₂.issued d₂.revoked).1 ∧
+           dm.revoked = (mergedSets d₁.issued d₁.revoked d₂.issued d₂.revoked).2) :
+    witnessUpdate ringOps γ m L i (witOf γ L i V) dm
+      = (witnessUpdate ringOps γ m L i (witOf γ L i V) d₁).bind
+          fun ω => witnessUpdate ringOps γ m L i ω d₂ := by
+  have hc := consecutive_of_applicable L V _ _ _ _ h₁ h₂
+  have hmem := fun x => merge_consecutive_sets d₁.issued d₁.revoked d₂.issued d₂.revoked hc x
+  obtain ⟨hdi, hdr⟩ := hdm
+  -- the merged delta is applicable at `V`
+  have ham : C09.Applicable L V dm.issued dm.revoked := by
+    refine ⟨?_, ?_, ?_, ?_, ?_⟩
+    · intro j hj; rw [hdi, (hmem j).1] at hj
+      rcases hj with ⟨h, _⟩ | ⟨h, _⟩
+      · exact h₁.rangeI j h
+      · exact h₂.rangeI j h
+    · intro j hj; rw [hdr, (hmem j).2] at hj
+      rcases hj with ⟨h, _⟩ | ⟨h, _⟩
+      · exact h₁.rangeR j h
+      · exact h₂.rangeR j h
+    · intro j hj; rw [hdi, (hmem j).1] at hj
+      rcases hj with ⟨h, _⟩ | ⟨h, hn⟩
+      · exact h₁.fresh j h
+      · intro hv
+        exact h₂.fresh j h (by simp [hv, hn])
+    · intro j hj; rw [hdr, (hmem j).2] at hj
+      rcases hj with ⟨h, _⟩ | ⟨h, hn⟩
+      · exact h₁.valid j h
+      · have := h₂.valid j h
+        simp [hn] at this
+        exact this.1
+    · intro j hj hj2
+      rw [hdi] at hj; rw [hdr] at hj2
+      exact merge_disjoint _ _ _ _ hc j hj hj2
+  rw [C09.update_witness_value γ m L i hL hi V dm ham,
+    C09.update_witness_value γ m L i hL hi V d₁ h₁, Outcome.bind_ok,
+    C09.update_witness_value γ m L i hL hi _ d₂ h₂]
+  congr 2
+  ext x
+  have h1 := (hmem x).1; have h2 := (hmem x).2
+  have a1 := h₁.disj x; have a2 := h₂.disj x; have a3 := hc.ii x; have a4 := hc.rr x
+  have f1 := h₁.fresh x; have v1 := h₁.valid x
+  simp only [mem_sdiff, mem_union, List.mem_toFinset, hdi, hdr, h1, h2]
+  by_cases a : x ∈ d₁.issued <;> by_cases b : x ∈ d₁.revoked <;> by_cases c : x ∈ d₂.issued <;>
+    by_cases e : x ∈ d₂.revoked <;> by_cases v : x ∈ V <;> simp_all
+
+end witness
+
+/-! non-vacuity -/
+example : Consecutive [1, 2] [] [] [2] := ⟨by simp, by simp, by simp, by simp⟩
+example : Consecutive [] [3] [3, 4] [] := ⟨by simp, by simp, by simp, by simp⟩
+
 end CL.C13
